@@ -33,6 +33,7 @@ var (
 )
 
 type DirEntry = fs.DirEntry
+type Signal = os.Signal
 type PathError = fs.PathError
 
 // file mode bits (the redirected file refers to them as os.ModeXxx)
